@@ -127,11 +127,13 @@ Section Variant.
       destruct f2 as [|f2]; [cbn in L2; lia|]. cbn [length] in L1, L2.
       cbn [slow]. destruct (negb (tblb need c)); [f_equal; apply IH; lia|].
       destruct (escape_of html c); [f_equal; apply IH; lia|].
-      destruct normalize; [|f_equal; apply IH; lia].
-      destruct (decode_rune (c :: r)) as [st size] eqn:D.
-      pose proof (decode_rune_size _ _ _ D) as Sz.
       assert (Lk : forall k, (1 <= k)%nat -> (length (skipn k (c :: r)) <= length r)%nat).
       { intros k Hk. rewrite skipn_length. cbn [length]. lia. }
+      destruct normalize.
+      2:{ destruct html; [|f_equal; apply IH; lia].
+          destruct (sep3 (c :: r)); f_equal; apply IH; try lia; pose proof (Lk 3%nat ltac:(lia)); lia. }
+      destruct (decode_rune (c :: r)) as [st size] eqn:D.
+      pose proof (decode_rune_size _ _ _ D) as Sz.
       destruct st; f_equal; apply IH;
         try lia; try (pose proof (Lk 3%nat ltac:(lia)); lia);
         try (pose proof (Lk (N.to_nat size) ltac:(lia)); lia).
